@@ -467,3 +467,98 @@ Theorem unaddressed_db_unchanged p i s d :
 Proof.
   intros G A. destruct (one_keyspace_per_index p i s d G) as [H _]. rewrite A in H. exact H.
 Qed.
+
+(* ------------------------------------------------------------------ connection lifecycle *)
+(* programs with connections that end: [EvClose c] = connection c is gone (Handle returned) *)
+Inductive sevent := EvCmd (x : sstep) | EvClose (c : Z).
+
+Definition srv_step_ev (s : server) (e : sevent) : option reply * server :=
+  match e with
+  | EvCmd x => let '(r, s') := srv_exec s (ss_conn x) (ss_now x) (ss_nowms x) (ss_args x) (ss_hint x) in (Some r, s')
+  | EvClose c => (None, srv_disconnect s c)
+  end.
+
+Fixpoint srv_run_ev (s : server) (p : list sevent) : list (option reply) * server :=
+  match p with
+  | [] => ([], s)
+  | e :: r =>
+    let '(o, s1) := srv_step_ev s e in
+    let '(os, s2) := srv_run_ev s1 r in
+    (o :: os, s2)
+  end.
+
+Lemma srv_run_ev_cons s e r :
+  srv_run_ev s (e :: r) = (fst (srv_step_ev s e) :: fst (srv_run_ev (snd (srv_step_ev s e)) r),
+                           snd (srv_run_ev (snd (srv_step_ev s e)) r)).
+Proof. cbn. destruct (srv_step_ev s e) as [o s1]. cbn [fst snd]. destruct (srv_run_ev s1 r). reflexivity. Qed.
+
+Lemma srv_run_ev_app s p q :
+  snd (srv_run_ev s (p ++ q)) = snd (srv_run_ev (snd (srv_run_ev s p)) q).
+Proof.
+  revert s. induction p as [|e r IH]; intros s; [reflexivity|].
+  rewrite <- app_comm_cons, !srv_run_ev_cons. cbn [snd]. apply IH.
+Qed.
+
+Lemma sel_lookup_forget_same c l : sel_lookup c (sel_forget c l) = 0%nat.
+Proof.
+  unfold sel_forget. induction l as [|[c0 i0] r IH]; cbn; [reflexivity|].
+  destruct (Z.eqb_spec c c0) as [->|N]; cbn; [exact IH|].
+  destruct (Z.eqb_spec c c0); [contradiction|exact IH].
+Qed.
+
+Lemma sel_lookup_forget_other c c' l : c' <> c -> sel_lookup c' (sel_forget c l) = sel_lookup c' l.
+Proof. intros N. apply sel_lookup_filter_other. exact N. Qed.
+
+(* events after which c is still where it was if it was in database 0: everything except c's own
+   SELECTs *)
+Definition no_select_by (c : Z) (e : sevent) : Prop :=
+  match e with
+  | EvCmd x => ss_conn x = c -> is_select (ss_args x) = false
+  | EvClose _ => True
+  end.
+
+Lemma step_ev_stays_db0 s e c : no_select_by c e ->
+  sel_lookup c (ssel s) = 0%nat -> sel_lookup c (ssel (snd (srv_step_ev s e))) = 0%nat.
+Proof.
+  intros Q Z0. destruct e as [x|c0]; cbn [srv_step_ev].
+  - destruct (srv_exec s (ss_conn x) (ss_now x) (ss_nowms x) (ss_args x) (ss_hint x)) as [r s'] eqn:E.
+    cbn [snd]. replace s' with (snd (srv_exec s (ss_conn x) (ss_now x) (ss_nowms x) (ss_args x) (ss_hint x)))
+      by (rewrite E; reflexivity).
+    destruct (Z.eq_dec (ss_conn x) c) as [Ec|Nc].
+    + specialize (Q Ec). destruct (ss_args x) as [|nm rest] eqn:EA; [exact Z0|].
+      rewrite srv_exec_other by (try exact Q; discriminate).
+      destruct (nth_error (sdbs s) (sel_lookup (ss_conn x) (ssel s))); exact Z0.
+    + rewrite srv_exec_other_conn by (intros E2; apply Nc; symmetry; exact E2). exact Z0.
+  - cbn [snd srv_disconnect ssel]. destruct (Z.eq_dec c c0) as [->|N].
+    + apply sel_lookup_forget_same.
+    + rewrite sel_lookup_forget_other by exact N. exact Z0.
+Qed.
+
+Lemma run_ev_stays_db0 q c : forall s, Forall (no_select_by c) q ->
+  sel_lookup c (ssel s) = 0%nat -> sel_lookup c (ssel (snd (srv_run_ev s q))) = 0%nat.
+Proof.
+  induction q as [|e r IH]; intros s F Z0; [exact Z0|].
+  rewrite srv_run_ev_cons. cbn [snd]. inversion F; subst.
+  apply IH; [assumption|]. apply step_ev_stays_db0; assumption.
+Qed.
+
+(* A connection that starts after its predecessor under the same id has ended -- at any point of
+   any program, from any server state, whatever that predecessor or anybody else selected --
+   is in database 0, and stays there until its own first SELECT. *)
+Theorem reconnect_db0 s p c q : Forall (no_select_by c) q ->
+  sel_lookup c (ssel (snd (srv_run_ev s (p ++ EvClose c :: q)))) = 0%nat.
+Proof.
+  intros F. rewrite srv_run_ev_app, srv_run_ev_cons. cbn [snd srv_step_ev].
+  apply run_ev_stays_db0; [exact F|]. cbn [srv_disconnect ssel]. apply sel_lookup_forget_same.
+Qed.
+
+(* ... and so is a connection under an id that was never used, in any program with connections
+   coming and going *)
+Theorem new_connection_db0 n p c : Forall (no_select_by c) p ->
+  sel_lookup c (ssel (snd (srv_run_ev (srv_init n) p))) = 0%nat.
+Proof. intros F. apply run_ev_stays_db0; [exact F|reflexivity]. Qed.
+
+(* disconnecting changes no database and no other connection's selection *)
+Theorem disconnect_frame s c : sdbs (srv_disconnect s c) = sdbs s /\
+  forall c', c' <> c -> sel_lookup c' (ssel (srv_disconnect s c)) = sel_lookup c' (ssel s).
+Proof. split; [reflexivity|]. intros c' N. apply sel_lookup_forget_other. exact N. Qed.
